@@ -129,6 +129,9 @@ def _(M, a, c):
     f = V(a[0]); args = a[1].fields
     return call_closure(M, f, list(args), byref=isinstance(a[0], Ref))
 def call_closure(M, f, args, byref=True):
+    if not (isinstance(f, Agg) and f.ty.startswith('{closure@')):
+        from . import itermodels
+        return itermodels.callf(M, f, list(args))
     m = re.match(r'\{closure@(.*)\}', f.ty); locn = m.group(1)
     for name, b in M.bodies.items():
         if '{closure#' in name and ('{closure@%s}' % locn) in b.header:
@@ -260,7 +263,11 @@ def init(M):
         for m in re.finditer(r'(?:#\[snafu\([^\]]*\)\]\s*)*\b(\w+)\s*\{((?:[^{}]|\{[^{}]*\})*)\}\s*,', src):
             pass
     # simple variant field extraction for Error enums
-    for path, en in ((os.path.join(ms.SRC_ROOT, 'src/eval/error.rs'), 'Error'), (os.path.join(ms.SRC_ROOT, 'src/main.rs'), 'MainError')):
+    import glob as _glob
+    cands = []
+    for path in sorted(_glob.glob(os.path.join(ms.SRC_ROOT, 'src', '**', '*.rs'), recursive=True)):
+        if re.search(r'\benum Error\b', re.sub(r'//[^\n]*', '', open(path).read())): cands.append((path, 'MainError' if os.path.basename(path) == 'main.rs' else 'Error'))
+    for path, en in cands:
         src = open(path).read(); src = re.sub(r'//[^\n]*', '', src)
         i = src.index('enum Error'); j = src.index('{', i); depth = 1; k = j + 1
         while depth:
@@ -386,7 +393,7 @@ def render_one(M, fa):
             return display_local(M, v, '<Error as std::fmt::Display>::fmt')
         if base in ('Box<eval::error::Error>', 'Box<Error>'):
             return display_local(M, v.d['slot'][0], '<Error as std::fmt::Display>::fmt')
-        if base in ('FromUtf8Error',):
+        if base in ('FromUtf8Error', 'Utf8Error', 'std::str::Utf8Error', 'core::str::Utf8Error') and isinstance(v, Native):
             # Display of core::str::Utf8Error
             if v.d.get('sym'): raise Unsupported('Display of a Utf8Error over symbolic bytes')
             if v.d.get('error_len') is None: return elems('incomplete utf-8 byte sequence from index %d' % v.d['valid_up_to'])
@@ -396,7 +403,19 @@ def render_one(M, fa):
             return elems('None') if v.variant == 0 else elems('Some("') + toelems(v.fields[0]) + elems('")')
         if base == 'Token':
             return display_local(M, v, '<Token as std::fmt::Debug>::fmt')
+    # any other type of the crate with its own (hand-written or derived) impl: run that impl on a Formatter
+    tname = re.sub(r'<.*', '', base).split('::')[-1]
+    if re.fullmatch(r'\w+', tname):
+        body = find_method(M, 'fmt', r'&(?:\w+::)*' + tname + r'(?:<[^,)]*>)?', 'Display' if kind == 'display' else 'Debug')
+        if body is not None:
+            return run_fmt_body(M, body, v)
     raise Unsupported("fmt of %s (%s)" % (ty, kind))
+def run_fmt_body(M, body, v):
+    f = Native('Formatter', buf=[])
+    mp.ensure_parsed(body)
+    fr = ms.Frame(body); fr.locals[1] = Ref([v], 0); fr.locals[2] = Ref([f], 0)
+    M.run(fr)
+    return flat(f.d['buf'])
 def all_bodies(M):
     for b in M.bodies.values(): yield b
     for l in mp.DUPS.values():
@@ -408,7 +427,7 @@ def find_method(M, method, arg0_re, span_text=None):
         if span_text is not None:
             m = ms.IMPL_AT.search(b.name)
             lines = ms.src_lines(m.group(1)); l1, c1, c2 = int(m.group(2)), int(m.group(3)), int(m.group(5))
-            if lines[l1-1][c1-1:c2-1] != span_text: continue
+            if span_text not in lines[l1-1][c1-1:c2-1]: continue
         return b
     return None
 def display_local(M, v, name):
@@ -578,15 +597,6 @@ def _(M, a, c):
     r = V(a[0]); lo, hi = r.fields
     if lo.v >= hi.v: return NONE()
     r.fields[0] = usize(lo.v + 1); return some(lo)
-@model_re(r'^<[iu](size|64) as TryInto<[iu](size|64)>>::try_into$')
-def _(M, a, c):
-    m = re.search(r'TryInto<(\w+)>', c); w, s = INT_TY[m.group(1)]; v = a[0]
-    if v.sym():
-        fits = (v.z() >= 0) if True else None
-        if M.branch(z3.BitVecVal(0, 64) <= v.z() if v.s or s else z3.BoolVal(True)): return ok(Int(w, s, v.v))
-        return err(Native('TryFromIntError'))
-    if s and not v.s and v.v >= 2**63 or (not s and v.v < 0): return err(Native('TryFromIntError'))
-    return ok(Int(w, s, v.v))
 @model_re(r'^Option::get_or_insert$')
 def _(M, a, c):
     o = V(a[0])
@@ -700,13 +710,17 @@ def _(M, a, c):
     which = re.match(r'^(Prog|Expr)Parser', norm_name(c)).group(1)
     lx = a[1]
     lxref = lx if isinstance(lx, Ref) else Ref([lx], 0)
-    LX = find_fn(M, r'^lexer::<impl at src/lexer/mod.rs:\d+:1: \d+:\d+>::next$')
+    LX = ms.find_by_sig(M, *ms.LEXER_NEXT_SIG)
     def next_token():
         r = M.call(LX, [lxref]); return None if r.variant == 0 else r.fields[0]
     r = drive(M, '__parse__%s::' % which, next_token)
     if PARSE_HOOK[0] is not None: PARSE_HOOK[0](M, which, r)
     return r
 PARSE_HOOK = [None]
+@model_re(r'^<(?!String|&?str|Cow)([\w:]+) as ToString>::to_string$')
+def _(M, a, c):
+    ty = re.match(r'^<([\w:]+) as ToString>', norm_name(c)).group(1)
+    return pystr(render_one(M, Native('FmtArg', v=a[0], ty='&' + ty, fk='display')))
 @model('<String as ToString>::to_string')
 def _(M, a, c): return Native('String', b=list(V(a[0]).d['b']))
 @model_re(r'^Option::or_else$')
@@ -759,9 +773,7 @@ def _(M, a, c): return UNIT
 def _(M, a, c):
     o, f = a
     if o.variant == 0: return NONE()
-    if isinstance(f, Native) and f.kind == 'FnItem': return some(M.call(f.d['name'], [o.fields[0]]))
-    if isinstance(f, Native) and f.kind == 'ZST': return some(M.call(M.lookup(f.d['name']), [o.fields[0]]))
-    return some(call_closure(M, f, [o.fields[0]], byref=False))
+    return some(_callf(M, f, [o.fields[0]]))
 def split_top(s):
     parts = []; d = 0; cur = ''
     for i, ch in enumerate(s):
@@ -831,12 +843,23 @@ def _(M, a, c):
     hi = concretize(M, i.fields[1], n)
     if hi is None or lo > hi: return NONE()
     return some(Slice(s.b, s.lo + lo, s.lo + hi))
-@model_re(r'^<[iu](size|64) as TryInto<[iu](size|64)>>::try_into$')
+_IT = r'(?:[iu](?:8|16|32|64|128|size)|char)'
+@model_re(r'^<(' + _IT + r') as TryInto<(' + _IT + r')>>::try_into$|^<(' + _IT + r') as TryFrom<(' + _IT + r')>>::try_from$')
 def _(M, a, c):
-    m = re.search(r'TryInto<(\w+)>', c); w, s = INT_TY[m.group(1)]; v = a[0]
-    neg = M.binop('Lt', Int(64, True, v.v), Int(64, True, 0)) if True else False
-    if M.branch(neg): return err(Native('TryFromIntError'))
-    return ok(Int(w, s, v.v))
+    """checked integer conversion for every pair of integer types (and u32 -> char): Ok iff the mathematical value fits the target"""
+    m = re.match(r'^<(\w+) as (TryInto|TryFrom)<(\w+)>>', norm_name(c))
+    src, dst = (m.group(1), m.group(3)) if m.group(2) == 'TryInto' else (m.group(3), m.group(1))
+    w, s = INT_TY[dst]; v = a[0]; lo = -(1 << (w - 1)) if s else 0; hi = (1 << (w - 1)) - 1 if s else (1 << w) - 1
+    errv = Native('CharTryFromError') if dst == 'char' else Native('TryFromIntError')
+    if not v.sym():
+        okv = lo <= v.v <= hi and not (dst == 'char' and (v.v > 0x10FFFF or 0xD800 <= v.v <= 0xDFFF))
+        return ok(Int(w, s, v.v)) if okv else err(errv)
+    W = max(v.w, w) + 1
+    wide = (z3.SignExt if v.s else z3.ZeroExt)(W - v.w, v.z())
+    fits = z3.And(wide >= z3.BitVecVal(lo, W), wide <= z3.BitVecVal(hi, W))
+    if dst == 'char': fits = z3.And(fits, wide <= z3.BitVecVal(0x10FFFF, W), z3.Or(wide < z3.BitVecVal(0xD800, W), wide > z3.BitVecVal(0xDFFF, W)))
+    if M.branch(fits): return ok(ms.int_cast(v, w, s))
+    return err(errv)
 
 # demonic iteration order for hash containers: fork over permutations (hash seed = symbolic input)
 FORK_CHOICE = {'n': 0}
@@ -983,12 +1006,8 @@ def _(M, a, c):
 
 # ---- Result / Option combinators (generic families)
 def _callf(M, f, args):
-    if isinstance(f, Native) and f.kind == 'FnItem': return M.call(f.d['name'], args)
-    if isinstance(f, Native) and f.kind == 'ZST':
-        key = M.lookup(f.d['name'])
-        if key is None: raise Unsupported("callable " + f.d['name'])
-        return M.call(key, args)
-    return call_closure(M, f, args, byref=False)
+    from . import itermodels
+    return itermodels.callf(M, f, args)
 @model_re(r'^std::result::Result::(map_err|map|and_then|or_else|unwrap_or_else|unwrap_or|unwrap_or_default|ok|err|is_ok|is_err|expect|expect_err|unwrap_err|ok_or|map_or|map_or_else|as_ref|as_mut|iter)$')
 def _(M, a, c):
     fn = norm_name(c).split('::')[-1]; r = a[0]
